@@ -1,4 +1,5 @@
 """L-PURE / L-PARAM: no ambient state, entropy, time, I/O; parametricity (DESIGN 4.1, 4.2)."""
+import os
 import re
 import core
 import facts
@@ -41,8 +42,29 @@ def chain(S, iid):
     return ' <- '.join(x[:90] for x in out)
 
 
+def denied_instances(S):
+    out = []
+    for n in list(S.bodies.values()) + list(S.leaves.values()):
+        dp = n.get('dpath', '')
+        for pat, why in DENY:
+            if re.search(pat, dp):
+                out.append((n, why))
+    return out
+
+
+def static_problems(gg):
+    out = []
+    for st in gg['statics']:
+        if st['mutable'] or not st['freeze'] or st['thread_local']:
+            out.append((st['path'], st))
+    return out
+
+
 def check(ctx, rep, rule='L-PURE'):
     g = ctx.g
+    if os.path.isdir(facts.FIXTURES):
+        from rules import fixtures
+        rep.extra['fixture_selftest_purity'] = fixtures.selftest_purity(ctx)
     # statics / unsafe / features (generic facts of the production library)
     configs = ['g-all'] + (['g-default', 'g-nodefault'] if ctx.tier == 'thorough' else [])
     for cfg in configs:
@@ -59,11 +81,8 @@ def check(ctx, rep, rule='L-PURE'):
         S = ctx.suite(sn)
         nodes = list(S.bodies.values()) + list(S.leaves.values())
         n_inst += len(nodes)
-        for n in nodes:
-            dp = n.get('dpath', '')
-            for pat, why in DENY:
-                if re.search(pat, dp):
-                    rep.ob(rule, 'no reachable use of ' + why, False, 'reachable: %s' % chain(S, n['id']), '', sn)
+        for n, why in denied_instances(S):
+            rep.ob(rule, 'no reachable use of ' + why, False, 'reachable: %s' % chain(S, n['id']), '', sn)
         # every RNG method instance reached has the harness generator (or a &mut chain to it) as receiver
         for n in nodes:
             label = n.get('path') or n.get('inst') or ''
